@@ -8,7 +8,7 @@ prop=[p for p in prop if p["id"]==pid][0]
 # the sub-agent gets the property text only: title, statement, quantifier and anchoring files
 text=(f"Property {pid}: {prop['title']}\n\nStatement: {prop['statement']}\n\nQuantified over: {prop['quantifier']['text']}\n\n"
       f"Code the property is anchored in: {', '.join(prop['anchors']['files'])}\n")
-print(f"""You are helping to evaluate the blind spots of a test-suite. Work ONLY inside the git worktree {wt} (a checkout of the antiSMASH repository; /venv/bin/python has all its dependencies installed). Do not read or write anything under /verif or /repo, do not look for other checkers on this machine, and do not run git commit.
+print(f"""You are helping to evaluate the blind spots of a test-suite. Work ONLY inside the git worktree {wt} (a checkout of the antiSMASH repository; /venv/bin/python has all its dependencies installed). Do not read or write anything under /verif or /repo, do not look for other checkers on this machine, do not run git commit and never use git stash (the stash is shared between worktrees; use `git diff > file`, `git checkout -- antismash`, `git apply file` instead).
 
 Below is a semantic property that antiSMASH is supposed to satisfy.
 
